@@ -76,8 +76,9 @@ func (self *mmLexInfo) Lex(lval *mmSymType) int {
 				self.Loc(),
 				string(bytes.TrimSpace(val)),
 			})
-			self.loc.Line++
-			self.loc.Col = 1
+			// A comment ends with its newline, unless the file or
+			// the valid text ends first.
+			self.loc.advance(val)
 			self.incCol = false
 			continue
 		}
